@@ -345,7 +345,56 @@ def _cfg_for(name):
     return cfg
 
 
-HARNESSES = [Harness(f"snapshot[{name}]", sym_snap, replay_snap, _cfg_for(name), pl.BASE_UNITS + a.units,
+# ---------------------------------------------------------------- SingleAnnotatorWrapper: generator handed as random_state
+def sym_saw_rs(c, cmode, amode):
+    """a RandomState instance handed to the multi-annotator wrapper is a constructor parameter: query must not draw from it"""
+    from harness import C07
+    P = __import__("skactiveml.pool.multiannotator", fromlist=["SingleAnnotatorWrapper"])
+    s = C07.gen(c, 2, 2, cmode, amode)
+    if not s.avail:
+        raise core.PathAbort("no available pair")
+    inst = facade.SymRandomState(s.seed)
+    inst0 = copy.deepcopy(inst)
+    inner = pl.pool().RandomSampling(random_state=s.seed)
+    w = P.SingleAnnotatorWrapper(strategy=inner, random_state=inst)
+    C07._alarm(2)
+    try:
+        w.query(s.X, s.y, candidates=s.cand, annotators=s.annot, batch_size=2)
+    except C07.Timeout:
+        raise core.PathAbort("query does not terminate (C07)")
+    finally:
+        C07._alarm_off()
+    c.prove(inst.same_state(inst0), "random_state_parameter_not_consumed")
+    c.witness(True, "ran")
+
+
+def replay_saw_rs(inputs, label, cmode, amode):
+    from harness import C07
+    P = __import__("skactiveml.pool.multiannotator", fromlist=["SingleAnnotatorWrapper"])
+    s = C07.real_gen(inputs, 2, 2, cmode, amode)
+    for seed in (s.seed, 0, 1):
+        inst = np.random.RandomState(seed)
+        st0 = inst.get_state()
+        w = P.SingleAnnotatorWrapper(strategy=pl.pool().RandomSampling(random_state=seed), random_state=inst)
+        C07._alarm(5)
+        try:
+            w.query(s.X, s.y, candidates=s.cand, annotators=s.annot, batch_size=2)
+        except C07.Timeout:
+            continue
+        finally:
+            C07._alarm_off()
+        st1 = inst.get_state()
+        if not (np.array_equal(st0[1], st1[1]) and st0[2:] == st1[2:]):
+            return True, (f"SingleAnnotatorWrapper(RandomSampling, random_state=RandomState({seed})).query(...) advanced the generator it was "
+                          f"handed (position {st0[2]} -> {st1[2]})")
+    return False, "not reproduced"
+
+
+HARNESSES = [Harness("single_annotator_wrapper_random_state", sym_saw_rs, replay_saw_rs,
+                     lambda tier: [dict(cmode=cm, amode=am) for cm, am in (("none", "none"), ("idx", "idx"))],
+                     ["skactiveml.pool.multiannotator._wrapper:SingleAnnotatorWrapper.query",
+                      "skactiveml.pool.multiannotator._wrapper:SingleAnnotatorWrapper._query_annotators"], required_witnesses=("ran",))] + \
+            [Harness(f"snapshot[{name}]", sym_snap, replay_snap, _cfg_for(name), pl.BASE_UNITS + a.units,
                      product_abstraction=a.product_abstraction, required_witnesses=("ran",))
              for name, a in pl.ADAPTERS.items()] + [
     Harness("paramflow_query", lambda c: None, replay_paramflow, lambda tier: [], [])]
